@@ -45,6 +45,9 @@
 //!          account still has;
 //!      O4  a UAT accepted at or after issued_at + 300 s has its session on the account, not
 //!          revoked, issued by a credential the account still has;
+//!      O6  an OAuth2 session whose parent is revoked or missing is not used (token accepted, refresh
+//!          granted) at or after *the session's* first issue + 300 s, whichever of its tokens is
+//!          shown (class `C36:refresh-renews-grace-of-orphan-session`);
 //!      O5  after the primary credential was purged, replaced or changed through a credential
 //!          update, no login session issued with the old primary credential id is left un-revoked
 //!          (class `C36:replaced-credential-keeps-sessions`).
@@ -185,6 +188,8 @@ struct Grant {
     acct: usize,
     sid: Uuid,
     parent: Option<Uuid>,
+    /// instant (ns) of the code exchange that created the session
+    first_issue: u128,
     refresh: Option<String>,
     refresh_iat: u64,
     refresh_exp: u64,
@@ -679,6 +684,15 @@ impl<'a> Run<'a> {
             }
             return;
         }
+        // ---- O6: the grace window of the *session* (first issue + 300 s), whatever token is shown ----
+        if g.parent.is_some() && !parent_ok && ct >= g.first_issue + ORACLE_GRACE {
+            self.fail(
+                "impl-vs-oracle",
+                "C36:refresh-renews-grace-of-orphan-session",
+                "an oauth2 session whose parent login session is revoked or missing is unusable once 300 s have passed since the session was issued".into(),
+                format!("token {k} of session {sn} (first issued at {}, this token iat {} s) accepted via {how} at {ct}; parent {pn:?} on the account: {}", g.first_issue, tk.iat, parent_state.clone().map(|s| s.0.show()).unwrap_or_else(|| "missing".into())),
+            );
+        }
         if !past_grace {
             return;
         }
@@ -1046,7 +1060,7 @@ impl<'a> Run<'a> {
                 if r.is_ok() {
                     let sn = self.w.nat(sid);
                     let pn = parent.map(|p| self.w.nat(p).to_string()).unwrap_or_else(|| "-".into());
-                    self.w.grants.push(Grant { acct: a, sid, parent, refresh: None, refresh_iat: 0, refresh_exp: 0 });
+                    self.w.grants.push(Grant { acct: a, sid, parent, first_issue: t, refresh: None, refresh_iat: 0, refresh_exp: 0 });
                     self.mw(a, t, &format!("grant {sn} {pn} {exp} {t}"));
                 }
                 self.out.count(if r.is_ok() { "op:fabgrant" } else { "op:fabgrant-failed" });
@@ -1076,11 +1090,20 @@ impl<'a> Run<'a> {
                 }
                 match r {
                     Ok(resp) => {
-                        // O3 on the refresh path
+                        // O6 / O3 on the refresh path
+                        let re = self.prev[g.acct].clone();
+                        let pst = g.parent.and_then(|p| re.uats.as_ref().and_then(|m| m.get(&p)).cloned());
+                        let orphan = g.parent.is_some() && !matches!(&pst, Some((st, _)) if *st != St::R);
+                        if orphan && t >= g.first_issue + ORACLE_GRACE {
+                            self.fail(
+                                "impl-vs-oracle",
+                                "C36:refresh-renews-grace-of-orphan-session",
+                                "an oauth2 session whose parent login session is revoked or missing is unusable once 300 s have passed since the session was issued".into(),
+                                format!("refresh of session {sn} (first issued at {}, refresh token iat {} s, parent {pn:?} {}) accepted at {t}", g.first_issue, g.refresh_iat, pst.clone().map(|s| s.0.show()).unwrap_or_else(|| "missing".into())),
+                            );
+                        }
                         if t >= g.refresh_iat as u128 * NS + ORACLE_GRACE {
-                            let re = self.prev[g.acct].clone();
-                            let pst = g.parent.and_then(|p| re.uats.as_ref().and_then(|m| m.get(&p)).cloned());
-                            if g.parent.is_some() && !matches!(&pst, Some((st, _)) if *st != St::R) {
+                            if orphan {
                                 self.fail(
                                     "impl-vs-oracle",
                                     "unclassified",
@@ -1202,7 +1225,7 @@ impl<'a> Run<'a> {
         let gi = match existing {
             Some(gi) => gi,
             None => {
-                self.w.grants.push(Grant { acct: a, sid, parent, refresh: None, refresh_iat: 0, refresh_exp: 0 });
+                self.w.grants.push(Grant { acct: a, sid, parent, first_issue: t, refresh: None, refresh_iat: 0, refresh_exp: 0 });
                 self.w.grants.len() - 1
             }
         };
@@ -1377,6 +1400,11 @@ fn scripted() -> Vec<(String, Vec<String>)> {
         format!("touch 1 {}", t + 1 + g - 1), format!("touch 1 {}", t + 1 + g), format!("touch 1 {}", t + 2 + g),
         format!("refresh 0 {}", t + 3 + g),
     ])));
+    // never-recorded parent, client refreshes every 200 s: each refresh renews the grace (finding)
+    out.push(("refresh-chain".into(), s(&[
+        format!("login 1 {t}"), format!("grant 0 {}", t + 1), format!("refresh 0 {}", t + 200 * NS), format!("refresh 0 {}", t + 400 * NS),
+        "present 2 now:1 introspect".into(), format!("touch 1 {}", t + 500 * NS), format!("refresh 0 {}", t + 600 * NS),
+    ])));
     // parent revoked by logout: refused at once; the OAuth2 session itself is swept at its grace end; refresh refused
     out.push(("parent-logout".into(), s(&[
         format!("login 1 {t}"), format!("record 0 {}", t + 1), format!("grant 0 {}", t + 2), format!("refresh 0 {}", t + 10 * NS),
@@ -1476,8 +1504,10 @@ fn main() {
                 Some(g) => rep.fail(g),
                 None => rep.fail(f),
             }
-            if kind_ == "impl-vs-oracle" {
-                // an oracle failure has been found and shrunk: stop early
+            if kind_ == "impl-vs-oracle" && class_ == "unclassified" {
+                // an unrecognised oracle failure has been found and shrunk: stop early (a failure of a
+                // recognised class is reported once and the run goes on, so that a listed known
+                // finding does not hide the rest of the exploration)
                 oracle_failed = true;
             }
         }
